@@ -7,7 +7,7 @@ set -u
 patch="$1"; shift
 wt=/tmp/mutwt/$$
 mkdir -p /tmp/mutwt
-git -C /repo worktree add -q --detach $wt HEAD || exit 2
+git -C /repo worktree add -q --detach $wt ${MUT_BASE:-HEAD} || exit 2
 ( cd $wt && git apply --exclude='MUTANT/*' "$patch" ) || { echo "patch does not apply"; git -C /repo worktree remove --force $wt; exit 2; }
 for id in "$@"; do
   ( cd ${VERIF_SNAP:-/verif} && VERIF_REPO=$wt VERIF_EVIDENCE_DIR=/tmp/mutwt/ev$$ timeout 3000 ./check "$id" --tier quick > /tmp/mutrun_$id.$$.log 2>&1; echo "$id exit=$? $(grep -c '^VIOLATION' /tmp/mutrun_$id.$$.log) violations; $(grep -m1 '^VIOLATION\|^INCONCLUSIVE' /tmp/mutrun_$id.$$.log | cut -c1-220)" )
